@@ -15,6 +15,12 @@ from vf.common import h
 from vf.runner import engine_pool, have_node, node_pool
 
 NUMS = ["0", "-0", "1", "-1", "1.5", "1e21", "1e-7", "5e-324", "9007199254740993", "1E+2", "0.1", "123456789", "1e400", "-1e-400", "1.0", "100", "2.5e-5", "0e0", "-0.0"]
+# integral doubles beyond 2^53 (the shortest round-trip digits are fewer than the exact expansion), neighbours of the 1e21 switch to
+# exponent notation, long fractions, many-digit texts: the canonical text is ECMAScript's Number::toString
+NUMS += ["18446744073709551616", "1152921504606847000", "999999999999999900000", "999999999999999999999", "1000000000000000000000", "100000000000000000000", "123456789012345680000",
+         "9007199254740992", "9007199254740994", "36028797018963968", "72057594037927936", "4611686018427387904", "9223372036854775807", "-9223372036854775808", "295147905179352830000",
+         "1e17", "1.5e17", "12345678901234567890", "98765432109876543210", "-18446744073709552000", "4.35e20", "0.000001", "0.0000001", "123456.789e3", "1.7976931348623157e308", "2.2250738585072014e-308",
+         "4.9e-324", "0.30000000000000004", "1e-6", "1e-5", "123e-20", "0.1e1", "5e-1", "1.00000000000000011102230246251565", "3.141592653589793238462643383279"]
 STRS = ['""', '"a"', '"\\n"', '"\\""', '"\\\\"', '"\\/"', '"\\u0041"', '"\\u00e9"', '"é"', '"\\ud83d\\ude00"', '"😀"', '"\\ud800"', '"\\u0000"', '"\\b\\f\\r\\t"', '"\\u2028"',
         '"a\\u0001b"', '"__proto__"', '"\x7f"', '"</script>"']
 WS = ["", " ", "\n", "\t", "\r", " \n\t\r "]
